@@ -344,6 +344,39 @@ def evalSlot (p : Pending) (glob : Oracle) (obsToks : List String) : String :=
   let head := s!"RES {p.prop} {p.id} eq={b eq} hm={b hm} hi={b hi} miss={b miss} crash={b (obsToks.contains "crash")}"
   if eq && hi && hm && !miss then head else head ++ " | " ++ showLog pm ++ " | " ++ showLog pi
 
+/-! language `lauth` -/
+
+def parseLOp (tok : String) : Option LocalAuth.Op :=
+  match fields tok with
+  | ["umask", m] => some (.umask ((m.toList.foldl (fun a c => a * 8 + (c.toNat - 48)) 0)))
+  | ["pre", m] => some (.pre ((m.toList.foldl (fun a c => a * 8 + (c.toNat - 48)) 0)))
+  | ["create"] => some .create
+  | ["data", ks] => some (.setData (if ks == "-" then [] else (ks.splitOn ",").map unhex))
+  | ["hdrname", n] => some (.setHeaderName (unhex n))
+  | ["req", "none"] => some (.req none)
+  | ["req", n, v] =>
+    let tv : LocalAuth.TokVal :=
+      if v == "exact" then .exact else if v == "upper" then .upper else if v == "droplast" then .dropLast
+      else if v == "braceless" then .braceless else if v == "nul" then .nulSuffix else if v == "bom" then .bomPrefix
+      else if v == "previous" then .previous else .other (unhex (v.drop 2).toString)
+    some (.req (some (unhex n, tv)))
+  | ["destroy"] => some .destroy
+  | _ => none
+
+def evalLauth (p : Pending) (obsToks : List String) : String :=
+  let ops := p.toks.filterMap parseLOp
+  let mlog := (LocalAuth.run ops).log
+  let ilog := (obsToks.filter (· != "end")).filterMap parseObs
+  let badTok := obsToks.filter (fun t => t != "end" && (parseObs t).isNone)
+  -- before the first instance exists the file is whatever the scenario left there: compare
+  -- snapshots only from the first `create` on (the model does not track foreign content)
+  let eq := mlog == ilog
+  let hm := C17.holds ops mlog
+  let hi := C17.holds ops ilog
+  let b (x : Bool) := if x then "1" else "0"
+  let head := s!"RES {p.prop} {p.id} eq={b eq} hm={b hm} hi={b hi} miss={b (!badTok.isEmpty || ops.length != p.toks.length)} crash={b (obsToks.contains "crash")}"
+  if eq && hi && hm && badTok.isEmpty then head else head ++ " | " ++ showLog mlog ++ " | " ++ showLog ilog
+
 partial def loop (h : IO.FS.Stream) (glob : Oracle) (cur : Pending) : IO Unit := do
   let line ← h.getLine
   if line.isEmpty then return ()
@@ -364,6 +397,7 @@ partial def loop (h : IO.FS.Stream) (glob : Oracle) (cur : Pending) : IO Unit :=
       | "copier" => evalCopier cur rest
       | "fs" => evalFs cur glob rest
       | "slot" => evalSlot cur glob rest
+      | "lauth" => evalLauth cur rest
       | l => s!"RES {cur.prop} {cur.id} eq=0 hm=0 hi=0 miss=1 crash=0 | unknown language {l}"
     IO.println out
     loop h glob cur
